@@ -2,6 +2,10 @@
 //!  run:    sequences chosen by TLC (GenFeeReserve) on the small-scale model; a model number n is the
 //!          decimal n * 10^-4, i.e. n * 10^14 attos
 //!  random: sequences drawn from the seed at real scale (protocol parameters and boundary sets)
+//!  boundary: deterministic (no seed) - the full product (parameter class x tip kind) x (last call kind) x (balance one
+//!          atto below / equal to / one atto above what the last call needs) and the unit limits -1 / 0 / +1, zero
+//!          amounts and contingent-only locks; the INPUT amounts are found by probing the reserve's fee_balance()
+//!          with a large lock, the expected results are the specification's (TraceFeeReserve)
 //! Output: ndjson events new / call / finalize with every amount as limbs computed from the Decimal's
 //! bytes; TraceFeeReserve (the specification at real scale) accepts or rejects them.
 use radix_common::prelude::*;
@@ -134,9 +138,217 @@ fn run_sequence(out: &mut Out, p: &P, calls: &[Call]) {
         "toProposer": limbs(s.to_proposer_amount()), "toValidatorSet": limbs(s.to_validator_set_amount()), "toBurn": limbs(s.to_burn_amount())}));
 }
 
+fn atto(n: i128) -> Decimal {
+    Decimal::from_attos(I192::from(n))
+}
+fn mk(op: &str, u: u32, amt: Decimal) -> Call {
+    Call { op: op.to_string(), u, t: "State".into(), kind: "Xrd".into(), amt, r: 1, v: 1, cont: false }
+}
+fn mk_t(op: &str, u: u32, t: &str) -> Call {
+    Call { t: t.into(), ..mk(op, u, Decimal::ZERO) }
+}
+fn royalty(kind: &str, amt: Decimal, r: u64) -> Call {
+    Call { kind: kind.into(), r, ..mk("consumeRoyalty", 0, amt) }
+}
+fn lock(amt: Decimal, v: u64, cont: bool) -> Call {
+    Call { v, cont, ..mk("lockFee", 0, amt) }
+}
+fn clone_call(c: &Call) -> Call {
+    Call { op: c.op.clone(), u: c.u, t: c.t.clone(), kind: c.kind.clone(), amt: c.amt, r: c.r, v: c.v, cont: c.cont }
+}
+/// balance after the calls on a fresh reserve, and whether all of them succeeded
+fn probe(p: &P, calls: &[Call]) -> (Decimal, bool) {
+    let mut fr = p.reserve();
+    let mut all_ok = true;
+    for c in calls {
+        all_ok &= apply(&mut fr, c) == "ok";
+    }
+    (fr.fee_balance(), all_ok)
+}
+
+fn boundary_params() -> Vec<P> {
+    let mut res = vec![];
+    for class in 0..5 {
+        for tipk in 0..6 {
+            let mut cp = CostingParameters::latest();
+            match class {
+                1 => {
+                    cp.execution_cost_unit_price = atto(50_000_000_001);
+                    cp.finalization_cost_unit_price = atto(50_999_999_999);
+                }
+                2 => cp.execution_cost_unit_loan = 0,
+                3 => cp.execution_cost_unit_loan = cp.execution_cost_unit_limit,
+                4 => {
+                    cp.execution_cost_unit_limit = 3_000_000;
+                    cp.execution_cost_unit_loan = 1_000_000;
+                    cp.finalization_cost_unit_limit = 500_000;
+                }
+                _ => {}
+            }
+            let tip = match tipk {
+                0 => TipSpecifier::None,
+                1 => TipSpecifier::Percentage(0),
+                2 => TipSpecifier::Percentage(7),
+                3 => TipSpecifier::Percentage(u16::MAX),
+                4 => TipSpecifier::BasisPoints(1),
+                _ => TipSpecifier::BasisPoints(1_000_000),
+            };
+            // free credit: none / a non-round amount, alternating so that every class and every tip kind has both
+            let credit = if (class + tipk) % 2 == 1 { atto(3_000_000_000_000_000_007) } else { Decimal::ZERO };
+            res.push(P { cp, tip, credit, abort: false });
+        }
+    }
+    res
+}
+
+fn boundary(out: &mut Out, full: bool) {
+    let big = Decimal::from(1_000_000_000u64); // a lock no sequence here can exhaust
+    let mut sequences = 0u64;
+    let mut untied = 0u64;
+    for p in boundary_params() {
+        let loan = p.cp.execution_cost_unit_loan;
+        let lim_e = p.cp.execution_cost_unit_limit;
+        let lim_f = p.cp.finalization_cost_unit_limit;
+        // (prefix before the lock, calls between the lock and the last call, last call)
+        let mut shapes: Vec<(Vec<Call>, Vec<Call>, Call)> = vec![];
+        let mut exec_units = vec![1u32];
+        if full {
+            exec_units.push(1000);
+        }
+        if loan > 1 {
+            exec_units.push(loan - 1);
+        }
+        if loan > 0 {
+            exec_units.push(loan); // the call that triggers the repayment
+        }
+        if loan < lim_e {
+            exec_units.push(loan + 1);
+        }
+        for u in exec_units {
+            shapes.push((vec![], vec![], mk("consumeExecution", u, Decimal::ZERO)));
+        }
+        if loan > 1 && loan < lim_e {
+            // repayment triggered by the second of two calls; and a call after the repayment
+            shapes.push((vec![], vec![mk("consumeExecution", loan - 1, Decimal::ZERO)], mk("consumeExecution", 1, Decimal::ZERO)));
+            shapes.push((vec![], vec![mk("consumeExecution", loan, Decimal::ZERO)], mk("consumeExecution", 1, Decimal::ZERO)));
+        }
+        shapes.push((vec![], vec![], mk("consumeFinalization", 1, Decimal::ZERO)));
+        shapes.push((vec![], vec![], mk("consumeFinalization", lim_f, Decimal::ZERO)));
+        shapes.push((vec![], vec![], mk_t("consumeStorage", 1, "State")));
+        shapes.push((vec![], vec![], mk_t("consumeStorage", 4096, "Archive")));
+        shapes.push((vec![], vec![], royalty("Xrd", atto(1), 1)));
+        shapes.push((vec![], vec![royalty("Usd", atto(2_500_000_000_000_000_001), 1)], royalty("Xrd", atto(1_000_000_000_000_000_000), 2)));
+        shapes.push((vec![], vec![], royalty("Usd", atto(1_000_000_000_000_000_003), 2)));
+        // deferred costs of every kind, applied by an explicit repayment / by the repayment a consumption triggers
+        let deferred = vec![mk("consumeDeferredExecution", 40_000, Decimal::ZERO), mk("consumeDeferredFinalization", 7, Decimal::ZERO),
+                            mk_t("consumeDeferredStorage", 300, "State"), mk_t("consumeDeferredStorage", 5, "Archive")];
+        shapes.push((deferred.iter().map(clone_call).collect(), vec![], mk("repayAll", 0, Decimal::ZERO)));
+        if loan > 40_000 {
+            shapes.push((deferred.iter().map(clone_call).collect(), vec![], mk("consumeExecution", loan, Decimal::ZERO)));
+        }
+        shapes.push((vec![], vec![], mk("repayAll", 0, Decimal::ZERO)));
+        for (pre, mid, last) in &shapes {
+            // what the whole sequence needs: probe with a lock that is certainly enough
+            let mut seq: Vec<Call> = pre.iter().map(clone_call).collect();
+            seq.push(lock(big, 1, false));
+            seq.extend(mid.iter().map(clone_call));
+            seq.push(clone_call(last));
+            let (rest, all_ok) = probe(&p, &seq);
+            if !all_ok {
+                untied += 1;
+            }
+            for delta in [-1i128, 0, 1] {
+                for via in ["lock", "royalty"] {
+                    let mut calls: Vec<Call> = pre.iter().map(clone_call).collect();
+                    if via == "lock" {
+                        // lock exactly what is needed +- 1 atto (when the loan and credit alone suffice: royalty variant only)
+                        let need = big - rest + atto(delta);
+                        if need.is_negative() {
+                            continue;
+                        }
+                        calls.push(lock(need, 1, false));
+                        if full || delta == 0 {
+                            calls.push(lock(atto(0), 2, false));
+                            calls.push(lock(big, 3, true)); // a contingent lock never helps
+                        }
+                    } else {
+                        // (quick tier: only where locking cannot produce the tie, and for the smallest consumptions)
+                        let lock_possible = !(big - rest + atto(delta)).is_negative();
+                        if !full && lock_possible && !(last.op == "consumeRoyalty" || (last.op == "consumeExecution" && last.u == 1 && mid.is_empty())) {
+                            continue;
+                        }
+                        // drain through a royalty: "equal to balance" +- 1 atto
+                        let drain = rest - atto(delta);
+                        calls.push(lock(big, 1, false));
+                        calls.push(royalty("Xrd", drain, 2));
+                    }
+                    calls.extend(mid.iter().map(clone_call));
+                    calls.push(clone_call(last));
+                    // at / next to an empty balance: every kind of further consumption, then the royalty comes back
+                    calls.push(mk("consumeExecution", 1, Decimal::ZERO));
+                    if full || via == "royalty" {
+                        calls.push(mk("revertRoyalty", 0, Decimal::ZERO));
+                    }
+                    if full {
+                        calls.push(mk("consumeFinalization", 1, Decimal::ZERO));
+                        calls.push(royalty("Xrd", atto(1), 1));
+                        calls.push(royalty("Xrd", Decimal::ZERO, 1));
+                        calls.push(mk("revertRoyalty", 0, Decimal::ZERO));
+                        calls.push(mk("consumeExecution", 0, Decimal::ZERO));
+                    }
+                    let pp = P { cp: p.cp.clone(), tip: p.tip, credit: p.credit, abort: delta == 1 && via == "lock" && last.op == "repayAll" };
+                    run_sequence(out, &pp, &calls);
+                    sequences += 1;
+                }
+            }
+        }
+        // unit limits: committed units one below / at / one above the limit, with and without deferred units before
+        for d in [0u32, 5] {
+            for x in [-1i64, 0, 1] {
+                let mut calls = vec![];
+                if d > 0 {
+                    calls.push(mk("consumeDeferredExecution", d, Decimal::ZERO));
+                    calls.push(mk("consumeDeferredFinalization", d, Decimal::ZERO));
+                }
+                calls.push(lock(big, 1, false));
+                calls.push(mk("consumeExecution", (lim_e as i64 - d as i64 + x) as u32, Decimal::ZERO));
+                calls.push(mk("consumeExecution", (lim_e as i64 - d as i64 + x - 1) as u32, Decimal::ZERO));
+                calls.push(mk("consumeExecution", 1, Decimal::ZERO));
+                calls.push(mk("consumeExecution", 1, Decimal::ZERO));
+                calls.push(mk("consumeFinalization", (lim_f as i64 - d as i64 + x) as u32, Decimal::ZERO));
+                calls.push(mk("consumeFinalization", (lim_f as i64 - d as i64 + x - 1) as u32, Decimal::ZERO));
+                calls.push(mk("consumeFinalization", 1, Decimal::ZERO));
+                calls.push(mk("consumeFinalization", 1, Decimal::ZERO));
+                calls.push(mk("repayAll", 0, Decimal::ZERO));
+                run_sequence(out, &p, &calls);
+                sequences += 1;
+            }
+        }
+        // zero amounts and contingent-only locks; abort exactly when the loan is repaid
+        let zero = vec![lock(Decimal::ZERO, 1, false), mk("consumeExecution", 0, Decimal::ZERO), mk("consumeFinalization", 0, Decimal::ZERO),
+                        mk_t("consumeStorage", 0, "State"), mk_t("consumeStorage", 0, "Archive"), royalty("Xrd", Decimal::ZERO, 1),
+                        royalty("Usd", Decimal::ZERO, 2), mk("revertRoyalty", 0, Decimal::ZERO), mk("repayAll", 0, Decimal::ZERO),
+                        mk("repayAll", 0, Decimal::ZERO)];
+        run_sequence(out, &p, &zero);
+        let cont_only = vec![lock(big, 1, true), lock(big, 2, true), mk("consumeExecution", loan.max(1), Decimal::ZERO), mk("repayAll", 0, Decimal::ZERO)];
+        run_sequence(out, &p, &cont_only);
+        for abort in [false, true] {
+            let pa = P { cp: p.cp.clone(), tip: p.tip, credit: p.credit, abort };
+            let calls = vec![lock(big, 1, false), mk("consumeExecution", loan.saturating_sub(1).max(1), Decimal::ZERO), mk("consumeExecution", 1, Decimal::ZERO),
+                             mk("consumeExecution", 1, Decimal::ZERO), mk("repayAll", 0, Decimal::ZERO)];
+            run_sequence(out, &pa, &calls);
+            let nothing: Vec<Call> = vec![];
+            run_sequence(out, &pa, &nothing);
+        }
+        sequences += 6;
+    }
+    out.emit(&json!({"a": "boundary_summary", "sequences": sequences, "shapes_with_a_failing_probe": untied}));
+}
+
 pub fn run(mode: &str, args: &Args) {
     let mut out = Out::new();
     match mode {
+        "boundary" => boundary(&mut out, args.u64("full", 0) == 1),
         "run" => {
             const UNIT: i128 = 100_000_000_000_000; // 10^14 attos = 10^-4
             for s in read_lines() {
